@@ -291,6 +291,36 @@ def numeric(ctx):
             elif not np.all(np.isfinite(np.asarray(r, dtype=float))) or np.abs(np.asarray(r, dtype=float) - want).max() > 1e-6:
                 ctx.fail(cid, 'Quaternion.exp' if law != 'exp(log)' else 'Quaternion.log', 'mismatch', dict(P, law=law),
                          '%s of the unit quaternion %s is %s, expected %s' % (law, u.tolist(), np.asarray(r).tolist(), want.tolist()))
+    # the power law and the inner product when the receiver is a UnitQuaternion object: rotation angles from 1e-12 to a full turn less
+    # 1e-9 (the unit quaternion of angle a is (cos a/2, sin a/2 * axis)); the other operand of inner() a general quaternion
+    angs = [(n, t) for n, t in alph.theta_alphabet(tier, seed)] + [('2pi-1e-9', 2 * math.pi - 1e-9), ('2pi-1e-7', 2 * math.pi - 1e-7), ('3.5', 3.5), ('1e-8', 1e-8), ('3e-9', 3e-9)]
+    gq = A(4.0, 3.0, 2.0, 1.0)
+    for (tn, th), (xn, ax) in itertools.product(angs, alph.axes(tier, seed)[:3]):
+        u = np.r_[math.cos(th / 2), math.sin(th / 2) * ax]
+        cid = 'C12/unitrecv/theta=%s/axis=%s' % (tn, xn)
+        if not ctx.want(cid):
+            continue
+        ctx.case(cid, key=cid, trivial=(th == 0))
+        P = dict(theta=tn, axis=xn, receiver='UnitQuaternion')
+        mku = lambda: UQ(u.copy(), norm=False, check=False)
+        ok, r = call(lambda: (mku().inner(sm.Quaternion(gq.copy())), sm.Quaternion(gq.copy()).inner(mku()), mku().inner(mku())))
+        if not ok:
+            ctx.fail(cid, 'Quaternion.inner', 'raises:' + type(r).__name__, dict(P, law='inner'), '%r' % (r,))
+        else:
+            for nm_, got, want in (('u.inner(q)', r[0], float(u @ gq)), ('q.inner(u)', r[1], float(u @ gq)), ('u.inner(u)', r[2], float(u @ u))):
+                if abs(float(got) - want) > 1e-9 * max(1.0, abs(want)):
+                    ctx.fail(cid, 'Quaternion.inner', 'mismatch', dict(P, law='inner', form=nm_), '%s = %r, the Euclidean dot product is %r' % (nm_, got, want))
+        for n_ in (-8, -3, -1, 0, 1, 2, 3, 8):
+            rp = u.copy() if n_ != 0 else A(1, 0, 0, 0)
+            base_ = u if n_ >= 0 else ref.qconj(u)
+            rp = A(1, 0, 0, 0)
+            for _ in range(abs(n_)):
+                rp = ref.qmul(rp, base_)
+            ok, r = call(lambda: (mku() ** n_).vec)
+            if not ok:
+                ctx.fail(cid, 'Quaternion.pow', 'raises:' + type(r).__name__, dict(P, law='pow', n=n_), '%r' % (r,))
+            elif np.abs(np.asarray(r, dtype=float) - rp).max() > 1e-9:
+                ctx.fail(cid, 'Quaternion.pow', 'mismatch', dict(P, law='pow', n=n_), 'u**%d differs from the repeated product by %.3g' % (n_, np.abs(np.asarray(r, dtype=float) - rp).max()))
     for tn, th in [(n, t) for n, t in alph.theta_alphabet(tier, seed) if 1e-7 < t < math.pi - 1e-7]:
         for xn, ax in alph.axes(tier, seed):
             q = np.r_[0.0, th * ax]
